@@ -20,6 +20,7 @@ package main
 import (
 	"bytes"
 	"context"
+	stderrors "errors"
 	"fmt"
 	"sort"
 	"strconv"
@@ -28,6 +29,7 @@ import (
 	"sync/atomic"
 	"time"
 
+	"github.com/pingcap/errors"
 	"github.com/pingcap/failpoint"
 	"github.com/pingcap/kvproto/pkg/kvrpcpb"
 	"github.com/pingcap/log"
@@ -48,9 +50,13 @@ import (
 
 const watchdog = 20 * time.Second
 
+// completion of a flush function: ok, or a failure of a given KIND: a plain error, or (exist) an error chain that
+// contains *tikverr.ErrKeyExist for key existKey — the one kind handleAlreadyExistErr special-cases.
 type completion struct {
-	ok      bool
-	applied int
+	ok       bool
+	applied  int
+	exist    bool
+	existKey []byte
 }
 
 type kvPair struct{ k, v []byte }
@@ -293,7 +299,23 @@ func (e *env) bareFlush(gen uint64, m *unionstore.MemDB) error {
 	if c.ok {
 		return nil
 	}
+	if c.exist {
+		return errors.WithStack(&tikverr.ErrKeyExist{AlreadyExist: &kvrpcpb.AlreadyExist{Key: c.existKey}})
+	}
 	return fmt.Errorf("scripted flush failure")
+}
+
+// errOut renders the error returned by Flush / FlushWait: the kinds the code distinguishes
+func errOut(err error) string {
+	var ke *tikverr.ErrKeyExist
+	if stderrors.As(err, &ke) {
+		v := "none"
+		if ke.Value != nil {
+			v = vx.Hex(ke.Value)
+		}
+		return "err exist " + vx.Hex(ke.GetKey()) + " " + v
+	}
+	return "err flush"
 }
 
 func setThresholds(minKeys, minSize, force int, f func()) {
@@ -396,6 +418,11 @@ func (h *hijack) SendRequest(ctx context.Context, addr string, req *tikvrpc.Requ
 			e.mu.Lock()
 			e.unreportedFromRPC()
 			e.mu.Unlock()
+			if c.exist {
+				return &tikvrpc.Response{Resp: &kvrpcpb.FlushResponse{Errors: []*kvrpcpb.KeyError{{
+					AlreadyExist: &kvrpcpb.AlreadyExist{Key: c.existKey},
+				}}}}, nil
+			}
 			return &tikvrpc.Response{Resp: &kvrpcpb.FlushResponse{Errors: []*kvrpcpb.KeyError{{
 				Conflict: &kvrpcpb.WriteConflict{StartTs: fr.StartTs, ConflictTs: fr.StartTs + 1, ConflictCommitTs: fr.StartTs + 2, Key: fr.Mutations[0].Key},
 			}}}}, nil
@@ -589,12 +616,18 @@ func (e *env) doFlush(force bool, late completion) string {
 			return "err staging"
 		}
 		e.noteFlushErr()
-		return "err flush"
+		return errOut(err)
 	}
 	if !ok {
 		return "false"
 	}
-	return e.afterTriggered()
+	// property: a failed flush is reported — Flush must not start the next flush over a failure nobody was told about
+	swallowed := e.isUnreported()
+	out := e.afterTriggered()
+	if swallowed && !strings.HasPrefix(out, "panic") {
+		return "FAIL flush-error-swallowed"
+	}
+	return out
 }
 
 func (e *env) afterTriggered() string {
@@ -629,12 +662,17 @@ func (e *env) doFlushWait(late completion) string {
 		}
 	}
 	var err error
+	had := e.p.VerifHasFlushing()
 	if !e.guarded(func() { err = e.p.FlushWait() }) {
 		return "panic deadlock"
 	}
 	if err != nil {
 		e.noteFlushErr()
-		return "err flush"
+		return errOut(err)
+	}
+	// property: a failed flush is reported — FlushWait must not return nil over a failure nobody was told about
+	if had && e.isUnreported() {
+		return "FAIL flush-error-swallowed"
 	}
 	return "ok"
 }
@@ -643,10 +681,17 @@ func (e *env) doFlushWait(late completion) string {
 
 func parseCompletion(r, a string) (completion, bool) {
 	n, err := strconv.Atoi(a)
-	if err != nil || n < 0 || (r != "ok" && r != "err") {
+	if err != nil || n < 0 {
 		return completion{}, false
 	}
-	return completion{r == "ok", n}, true
+	if strings.HasPrefix(r, "exist:") {
+		k, ok := vx.UnHex(r[6:])
+		return completion{ok: false, applied: n, exist: true, existKey: k}, ok
+	}
+	if r != "ok" && r != "err" {
+		return completion{}, false
+	}
+	return completion{ok: r == "ok", applied: n}, true
 }
 
 func eqVal(a []byte, aok bool, b []byte, bok bool) bool {
@@ -772,11 +817,14 @@ func (e *env) commit(l1, l2 completion) (opName string, out string) {
 				}
 				return "commit", "ok"
 			}
-			if w == "err flush" {
+			if strings.HasPrefix(w, "err ") {
 				return "commit", "err wait"
 			}
 			return "commit", w
 		default:
+			if strings.HasPrefix(r, "err exist") {
+				r = "err flush"
+			}
 			return "commit", r
 		}
 	}
@@ -1207,6 +1255,10 @@ func (g *gen) val() string {
 }
 func (g *gen) comp(errPct int) string {
 	if g.r.Chance(errPct) {
+		if g.r.Chance(45) {
+			// a key of the case's key set: sometimes in the flushed batch, sometimes not
+			return fmt.Sprintf("exist:%s %d", g.key(), g.r.Intn(4))
+		}
 		return fmt.Sprintf("err %d", g.r.Intn(4))
 	}
 	return "ok 0"
@@ -1405,6 +1457,9 @@ func (g *gen) txnCase(n int) {
 
 func (g *gen) compTxn(errPct int) string {
 	if g.r.Chance(errPct) {
+		if g.r.Chance(40) {
+			return "exist:" + g.key() + " 0"
+		}
 		return "err 0"
 	}
 	return "ok 0"
